@@ -64,8 +64,38 @@ def rule_callback_kept(chk, prog):
                     "whose per-client session entry then stays behind a failed upstream - the client is not served again after the outage" % (muts or "callback not read"))
 
 
+def rule_session_released(chk, prog):
+    """A UDP listener keeps one session-table entry per client; the connection's callback removes it when the connection ends.  The
+    removal is unconditional on every path of on_error and on_finish: an entry kept "because its queue is still open" survives a
+    failed connect (the queue's receiver is still inside the context) and the client is never served again after the outage."""
+    n = 0
+    for im in prog.items["redproxy_rs"]["impls"]:
+        if not im.get("trait", "").endswith("context::ContextCallback"):
+            continue
+        sty = prog.types["redproxy_rs"][im["self_ty"]]["s"]
+        bodies = {}
+        for it in im["items"]:
+            f = prog.by_crate["redproxy_rs"].get(it["path"])
+            if f is not None and it["name"] in ("on_error", "on_finish"):
+                bodies[it["name"]] = prog.body_of(f)
+        has_table = any(re.search(r"CHashMap::<[^>]*>::remove$", c.path or "") for g in bodies.values() for c in g.calls)
+        if not has_table:
+            continue
+        for name, g in sorted(bodies.items()):
+            n += 1
+            rem = [c for c in g.calls if re.search(r"CHashMap::<[^>]*>::remove$", c.path or "")]
+            ok = bool(rem) and must_pass(g, [0], [c.bb for c in rem], g.returns())
+            chk.instance("session-released", "%s:%s" % (g.file, g.line), "%s::%s removes the client's session entry on every path" % (sty, name), ok)
+            if not ok:
+                chk.finding("session-released", g.key, "conditional-removal", name, "%s:%s" % (g.file, g.line),
+                            "%s::%s can return without removing the client's entry from the session table: after a failed or ended connection the "
+                            "stale entry swallows that client's datagrams until the proxy is restarted" % (sty, name))
+    chk.floor("session-released", n, 2, "terminal callbacks of listeners with a session table")
+
+
 def run(chk, prog):
     rule_callback_kept(chk, prog)
+    rule_session_released(chk, prog)
     impls = [k for k in prog.impls_of.get("redproxy_rs::connectors::Connector::connect", [])]
     chk.floor("dialing", len(impls), 5 if "quic" in prog.features else 4, "Connector::connect impls")
     for k in impls:
